@@ -339,6 +339,8 @@ YS = [[2.0, 4.5, 6.1, 8.3, 9.9, 12.2], [0.884226, 0.877366, 0.870531], [1.0, 3.0
 
 def g_angle(rng, lo=-360.0, hi=720.0):
     r = rng.random()
+    if lo == 0 and hi == 360 and rng.random() < 0.3:
+        lo = -360.0     # a longitude-like Angle may hold a negative value: (-360, 360) is its documented range
     if r < 0.3:
         v = rng.choice(ANGLE_B)
         return {'Angle': min(max(v, lo), hi)}
@@ -583,7 +585,7 @@ def special_args(rng, fq):
         a = rng.uniform(0.5, 30.0)
         return [rng.uniform(0.6 * a, 1.4 * a), a]
     if fq == 'Coordinates.kepler_equation':
-        return [round(rng.uniform(0.0, 0.97), 6), A(rng, 0, 360)]
+        return [round(rng.uniform(0.0, 0.97), 6), A(rng, -360, 360)]   # mean anomaly of either sign (C11)
     if fq == 'Coordinates.orbital_elements':
         pl = rng.choice(['Venus', 'Mars', 'Jupiter'])
         return [E(rng), {'global': pl + '.ORBITAL_ELEM'}, {'global': pl + '.ORBITAL_ELEM'}]
